@@ -632,6 +632,8 @@ impl SlabRouter {
             .map_err(|e| SlabRouterError::WalError(format!("Failed to save snapshot: {e}")))?;
         #[cfg(neumann_verif)]
         crate::verif_hooks::crash_point("ckpt.snapshot_written");
+        #[cfg(neumann_verif)]
+        crate::verif_hooks::yield_point("store.ckpt.snapshot_written");
 
         let checkpoint_id = self.checkpoint_counter.fetch_add(1, Ordering::SeqCst);
 
